@@ -198,6 +198,10 @@ def write_particles_contract():
     for existing in (["particles_meta"], []):
         w, f, idx, counters, n_ev = _writer(existing)
         old = counters["particles_meta"]
+        prior = integer("thrown_so_far")
+        assume(prior >= 0)
+        if existing:
+            f.nodes[LOCS["particles_meta"]].attrs["total_thrown"] = prior
         n_p = integer("n_particles")
         assume(n_p >= 1)
         meta_calls = []
@@ -211,7 +215,7 @@ def write_particles_contract():
         prove(tag + ":index-row-records-(old-counter, particle-count)", And(rec[0][0] is n_ev, rec[1][0] is old, rec[1][1] is n_p))
         prove(tag + ":metadata-written-at-the-event's-first-row", And(len(meta_calls) == 1, meta_calls[0][0] == LOCS["particles_meta"],
                                                                       meta_calls[0][1] == "particle-metadata", meta_calls[0][2] is old))
-        prove(tag + ":thrown-count-accumulated", g.attrs["total_thrown"] == 7 if not existing else True)
+        prove(tag + ":thrown-count-accumulated", g.attrs["total_thrown"] == (prior + 7 if existing else 7))
 
 
 class FakeAntenna:
